@@ -57,6 +57,8 @@ EXCLUSIONS = [
     ('TlsExtensionServerName*', 'host_name=str:len25?', 'RFC 1035: labels are at most 63 octets'),
     ('TlsExtensionServerName*', 'host_name=str:space', 'host names contain no whitespace'),
     ('SshKeyExchangeInit', 'cookie=bytes:*', 'RFC 4253 s7.1: the cookie is exactly 16 bytes'),
+    ('SshKeyExchangeInit', 'first_kex_packet_follows=int:*', 'RFC 4251 s5: a boolean is stored as 0 or 1 only (the '
+                                                           'field is declared as integer; 0 / 1 are the default and its toggle)'),
     ('*', '*host_key_algorithm=enum:*', 'the algorithm name of a host key / certificate object is fixed by its class '
                                         '(the classes dispatch on it); another name makes the object another type'),
     ('DnsRecordDnskey', 'algorithm=enum:*', 'the DNSSEC algorithm fixes the key type and curve/size of the key '
